@@ -369,6 +369,42 @@ class is_flag_active_visitor<Flag, flag_and>""")]),
                 event_pool.cur_seq_cnt += 1;
             }
 """)]),
+ dict(name='refactor-back11-msgq-functor-by-value', prop='C04', refactor=True, edits=[(B11, """    template <class StateType,class EventType>
+    bool do_pre_msg_queue_helper(EventType const& evt, ::boost::mpl::false_ const &)
+    {
+        ::boost::msm::back::execute_return (library_sm::*pf) (EventType&, ::boost::msm::back::EventSource) =
+            &library_sm::process_event_internal;
+
+        // if we are already processing an event
+        if (m_event_processing)
+        {
+            // event has to be put into the queue
+            m_events_queue.m_events_queue.push_back(
+                ::boost::bind(
+                    pf, this, evt,
+                    static_cast<::boost::msm::back::EventSource>(::boost::msm::back::EVENT_SOURCE_DIRECT | ::boost::msm::back::EVENT_SOURCE_MSG_QUEUE)));
+""", """    // an event waiting in the message queue for the end of the current processing (holds its own copy)
+    template <class EventType>
+    struct queued_event
+    {
+        ::boost::msm::back::execute_return operator()()
+        {
+            return m_fsm->process_event_internal(
+                m_evt,
+                static_cast<::boost::msm::back::EventSource>(::boost::msm::back::EVENT_SOURCE_DIRECT | ::boost::msm::back::EVENT_SOURCE_MSG_QUEUE));
+        }
+        library_sm* m_fsm;
+        EventType   m_evt;
+    };
+    template <class StateType,class EventType>
+    bool do_pre_msg_queue_helper(EventType const& evt, ::boost::mpl::false_ const &)
+    {
+        // if we are already processing an event
+        if (m_event_processing)
+        {
+            // event has to be put into the queue
+            m_events_queue.m_events_queue.push_back(queued_event<EventType>{this, evt});
+""")]),
  dict(name='revert-d20-puml-terminate-suffix', prop='C14', rule='C14.puml', edits=[('include/boost/msm/front/puml/puml.hpp', """cleanup_token(stt().substr(endl_before_pos + 1, arrow_pos - endl_before_pos - 1)) == state_name())""", """cleanup_token(stt().substr(state_pos, arrow_pos - state_pos)) == state_name())""")]),
  dict(name='flagfold-back11-early-break', prop='C17', rule='C17.pure', edits=[(B11, """            res = typename BinaryOp::type() (res,(*flags_entries[ m_states[i] ])(*this));""", """            res = typename BinaryOp::type() (res,(*flags_entries[ m_states[i] ])(*this));
             if (res) break;""")]),
